@@ -12,9 +12,9 @@ TEXT = {
         "technique": "Lean 4 totality theorems over an explicit crash outcome + hostile-input differential execution",
     },
     "C10": {
-        "level": "111 theorems over the Lean executor model (all stacks, heaps, values): 256-bit wrapping arithmetic, div/rem failure iff divisor 0, Exp closed form with the exact bit budget, shifts mod 256, Hash/SigEOk length rules, heap laws, vector/bytes laws with exact out-of-range behaviour, type errors and underflow, forward-only jumps, result = top of stack, and C10_loop_exact (a counted loop runs a straight-line body exactly `it` times). The model is the instruction-by-instruction mirror of executor.rs and is compared with the real executor (result value, failure, step count) on exhaustive short programs, type-aware random programs, loop/jump/doubling families, through the real decoder.",
+        "level": "122 theorems over the Lean executor model (all stacks, heaps, values): 256-bit wrapping arithmetic, div/rem failure iff divisor 0, Exp closed form with the exact bit budget, shifts mod 256, Hash/SigEOk length rules, heap laws, vector/bytes laws with exact out-of-range behaviour, type errors and underflow, forward-only jumps, result = top of stack, and C10_loop_exact (a counted loop runs a straight-line body exactly `it` times). The model is the instruction-by-instruction mirror of executor.rs and is compared with the real executor (result value, failure, step count) on exhaustive short programs, type-aware random programs, loop/jump/doubling families, operands beyond u16, values of 2^16 … 2^17 elements under every length- or index-taking instruction, through the real decoder.",
         "design_ref": "DESIGN.md §4 C10",
-        "note": NOTE_COMMON + " Deviations of the code from the documented laws are stated as *_actual theorems (indices beyond u16, sigeok type-error masking).",
+        "note": NOTE_COMMON + " Deviations of the code from the documented laws are stated as *_actual theorems (indices beyond u16, sigeok type-error masking, an empty-bodied loop's stale frame, a loop body running past the end of the program).",
         "technique": "Lean 4 theorems on executable model + differential execution vs real VM",
     },
     "C11": {
